@@ -617,7 +617,38 @@ pub fn random_request(rng: &mut Rng, nspec: usize) -> Option<Request> {
             rt_sec: 60.0 + 30.0 * k as f32,
             peaks,
         });
-        planted.push(Planted { file, title, peptide: pep.to_string() });
+        // the property's hypothesis: a target that is the only target inside the searched precursor windows
+        let charge_annotated = files[file].last().unwrap().charge;
+        let zs: Vec<u8> = match charge_annotated {
+            Some(z) => vec![z],
+            None => (cfg.z.0..=cfg.z.1).collect(),
+        };
+        let mut unique = !pep.decoy && !cfg.deisotope;
+        if unique {
+            'outer: for q in db.peptides.iter() {
+                if q.decoy || std::ptr::eq(q, pep) {
+                    continue;
+                }
+                for &zq in &zs {
+                    let m_obs = (pepmz - PROTON) * zq as f32;
+                    for k in cfg.iso.0..=cfg.iso.1 {
+                        let center = m_obs - k as f32 * NEUTRON;
+                        let (lo, hi) = if cfg.ptol.0 == 0 {
+                            (center + center * cfg.ptol.1 / 1e6, center + center * cfg.ptol.2 / 1e6)
+                        } else {
+                            (center + cfg.ptol.1, center + cfg.ptol.2)
+                        };
+                        if q.monoisotopic >= lo - 0.01 && q.monoisotopic <= hi + 0.01 {
+                            unique = false;
+                            break 'outer;
+                        }
+                    }
+                }
+            }
+        }
+        if unique {
+            planted.push(Planted { file, title, peptide: pep.to_string() });
+        }
     }
     for f in files.iter_mut() {
         if f.is_empty() {
